@@ -230,6 +230,15 @@ def run(ctx):
     ctx.attempt(_r1_r2_fkm_nonlinear)
     ctx.attempt(_r3_conservation)
     ctx.attempt(_r4_turns)
+    ctx.attempt(_r5_front)
+
+
+def _r5_front(ctx):
+    """Three-point variant: the two front indices are the first occurrence of the maximum and of the minimum of the carried
+    residual (np.argmax / np.argmin of the same array) and are fed to the matching guards (analysis shared with R-C03-1)."""
+    ctx.rule("R-C02-5", floor=2, what="three-point front indices: first maximum / first minimum of the carried residual, matching guards")
+    from .c03 import front_extremes
+    front_extremes(ctx)
 
 
 def _r4_turns(ctx):
@@ -703,6 +712,23 @@ def _closing_if(tree, fname):
 
 def variants():
     out = []
+
+    def front_argsort(tree):
+        f = find_func(tree, "ThreePointDetector.process")
+        hi = lo = None
+        for i, st in enumerate(f.body):
+            if isinstance(st, ast.Assign) and isinstance(st.value, ast.Call) and call_name(st.value) == "np.argmax":
+                hi = (i, st)
+            if isinstance(st, ast.Assign) and isinstance(st.value, ast.Call) and call_name(st.value) == "np.argmin":
+                lo = (i, st)
+        if not hi or not lo:
+            return False
+        arr = ast.unparse(hi[1].value.args[0])
+        hi[1].value = parse_expr("np.argsort(-%s, kind='stable')[0]" % arr)
+        lo[1].value = parse_expr("np.argsort(-%s, kind='stable')[-1]" % arr)
+        return True
+    out.append(witness("front minimum taken as last entry of a stable descending argsort", "src/pylife/stress/rainflow/threepoint.py",
+                       front_argsort, "R-C02-5"))
 
     def isclose_plateau(tree):
         f = find_func(tree, "find_turns")
